@@ -98,29 +98,14 @@ mod proofs {
         crate::k4_elements::k4_p256_tag(&mut KaniSrc)
     }
     #[kani::proof]
-    #[kani::unwind(300)]
-    fn k4_p256_tag05() {
-        crate::k4_elements::k4_p256_tag05(&mut KaniSrc)
-    }
-    #[kani::proof]
     #[kani::unwind(40)]
     fn k4_secp256k1_tag() {
         crate::k4_elements::k4_secp256k1_tag(&mut KaniSrc)
     }
     #[kani::proof]
-    #[kani::unwind(300)]
-    fn k4_secp256k1_tag05() {
-        crate::k4_elements::k4_secp256k1_tag05(&mut KaniSrc)
-    }
-    #[kani::proof]
     #[kani::unwind(40)]
     fn k4_secp256k1_tr_tag() {
         crate::k4_elements::k4_secp256k1_tr_tag(&mut KaniSrc)
-    }
-    #[kani::proof]
-    #[kani::unwind(300)]
-    fn k4_secp256k1_tr_tag05() {
-        crate::k4_elements::k4_secp256k1_tr_tag05(&mut KaniSrc)
     }
     #[kani::proof]
     #[kani::unwind(34)]
@@ -234,11 +219,8 @@ pub fn run_native(name: &str, vals: Vec<u8>) -> Result<(), String> {
         "k3_p256_scalar" => crate::k3_scalars::k3_p256_scalar(&mut s),
         "k3_ed448_scalar" => crate::k3_scalars::k3_ed448_scalar(&mut s),
         "k4_p256_tag" => crate::k4_elements::k4_p256_tag(&mut s),
-        "k4_p256_tag05" => crate::k4_elements::k4_p256_tag05(&mut s),
         "k4_secp256k1_tag" => crate::k4_elements::k4_secp256k1_tag(&mut s),
-        "k4_secp256k1_tag05" => crate::k4_elements::k4_secp256k1_tag05(&mut s),
         "k4_secp256k1_tr_tag" => crate::k4_elements::k4_secp256k1_tr_tag(&mut s),
-        "k4_secp256k1_tr_tag05" => crate::k4_elements::k4_secp256k1_tr_tag05(&mut s),
         "k4_ed25519_identity_y1" => crate::k4_edwards::k4_ed25519_identity_y1(&mut s),
         "k4_ed25519_identity_nopoint" => crate::k4_edwards::k4_ed25519_identity_nopoint(&mut s),
         "k4_ed25519_identity_point" => crate::k4_edwards::k4_ed25519_identity_point(&mut s),
